@@ -197,7 +197,7 @@ class SlidingDeltaConformity(Contract):
             return self.forbid(ctx, 'C20.sliding.no_exception.%s' % outcome[1], tags=T, note=outcome[2])
         r = outcome[1]
         if r.kind != 'acc':
-            return self.forbid(ctx, 'C20.sliding.returns_the_collected_series', tags=T, note='result kind %s' % r.kind)
+            return self.shape(ctx, 'C20.sliding.returns_the_collected_series', tags=T, note='result kind %s' % r.kind)
         SK = c.pre['SKey']
         a, b, n, s = c.qa, c.qb, c.qn, c.qs
         t_ = s - c.delta
